@@ -51,7 +51,7 @@ def run_task(task):
     res = common.Result()
     for idx, nl in enumerate(gen(task)):
         for m in (2, 4, 8):
-            check_case(res, {'nl': nl.to_json(), 'style': idx % len(STYLES), 'm': m, 'strip': bool((idx // 3) % 2), 'fam': task[0]})
+            check_case(res, {'nl': nl.to_json(), 'style': idx % len(STYLES), 'm': m, 'strip': bool((idx // len(STYLES)) % 2), 'fam': task[0]})
     return res
 
 
@@ -91,8 +91,7 @@ def check_case(res, case):
     try:
         b = build(nl, STYLES[case['style']])
         c = b.circuit
-        has_port_forks = any(x.kind == '__fork__' and len(x.ins) == 0 for x in c.io_nodes)
-        strip = case['strip'] and not has_port_forks
+        strip = case['strip']
         ipos, opos, spos = b.s_pos()
         nI, nS = nl.n_in, len(nl.states)
         nv = nI + nS
